@@ -231,7 +231,9 @@ func c14Uses() []c14Use {
 				return decodeInto(d, []byte("a3{s5\"hello\"r1;c5\"Plain\"3{uaubuc}o0{1r1;0}}"), false, nil)
 			}},
 		{"simple-shared", func(e *hio.Encoder) string { e.Simple(true); e.Encode(shared); return hex.EncodeToString(e.Bytes()) },
-			func(d *hio.Decoder) interface{} { return decodeInto(d, []byte("a2{s5\"hello\"s5\"hello\"}"), true, nil) }},
+			func(d *hio.Decoder) interface{} {
+				return decodeInto(d, []byte("a2{s5\"hello\"s5\"hello\"}"), true, nil)
+			}},
 		{"struct-then-nothing", func(e *hio.Encoder) string {
 			e.Simple(false)
 			e.Encode(gen.Plain{A: 2, B: "b"})
@@ -248,7 +250,11 @@ func c14Uses() []c14Use {
 			}
 			return s
 		}, func(d *hio.Decoder) interface{} { return decodeInto(d, []byte("a2{s5\"hel"), false, nil) }},
-		{"options", func(e *hio.Encoder) string { e.Simple(false); e.Encode(int64(1) << 40); return hex.EncodeToString(e.Bytes()) },
+		{"options", func(e *hio.Encoder) string {
+			e.Simple(false)
+			e.Encode(int64(1) << 40)
+			return hex.EncodeToString(e.Bytes())
+		},
 			func(d *hio.Decoder) interface{} {
 				return decodeInto(d, []byte("a3{l5;d1.5;m1{ua1}}"), false, func(d *hio.Decoder) {
 					d.LongType = hio.LongTypeBigInt
